@@ -59,7 +59,7 @@ CHECKS = {
         design="DESIGN.md §5 C13",
         technique="Coq proof (renderer/parser round trip, induction over line lists and cut positions) + three-way differential correspondence"),
     "C14": dict(
-        text=("17 theorems (Props/C14.v) over all file contents, host maps, ports, crash points and histories: the rewrite result is byte for byte "
+        text=("18 theorems (Props/C14.v) over all file contents, host maps, ports, crash points and histories: the rewrite result is byte for byte "
               "the old lines without this port's marked lines plus one marked line per sorted entry (modulo exactly Python's trailing-whitespace "
               "normalisation, stated); marker injectivity over ports; only rename changes the hosts path and every crash point leaves the previous "
               "or the complete next version; serial histories of any number of instances keep base lines and each instance's last map. "
